@@ -11,6 +11,7 @@ from __future__ import annotations
 import ast
 
 from ..index import AnalysisError, call_name, norm, norm1
+from ..sem import Sem, reachable_helpers
 from .common import Frag, const_of, enclosing, fctx, in_body, is_name, kwarg, method_calls, pfind, pmatch, stmts
 
 LEVEL = "other"
@@ -27,7 +28,8 @@ UT = "wannierberri/w90files/utility.py"
 def run(ctx) -> None:
     idx = ctx.index
     f = idx.function(UT, "grid_from_kpoints")
-    cfg, du, pm = fctx(f)
+    S = Sem(idx, f)
+    cfg, du, pm = S.cfg, S.du, S.pm
     kpp, gridp = f.params[0], f.params[1]
 
     r1 = ctx.rule("R23.1", "each mesh point selected exactly once; incomplete meshes rejected")
@@ -38,66 +40,96 @@ def run(ctx) -> None:
         return
     lp = loops[0]
     iv, kv = norm(lp.target.elts[0]), norm(lp.target.elts[1])
-    app = [c for c in method_calls(lp, "append") if c.args and norm(c.args[0]) == iv]
-    if len(app) != 1:
-        r1.expect(False, "selection append located", f, lp, "grid_from_kpoints: the single `selected.append(i)` of the loop was not found")
+    # the statement that records index i: `selected.append(i)` (list + seen-set) or `first[kint] = i` (dict, first occurrence wins)
+    rec = []
+    for s_ in ast.walk(lp):
+        if isinstance(s_, ast.Expr) and isinstance(s_.value, ast.Call) and isinstance(s_.value.func, ast.Attribute) and s_.value.func.attr == "append" \
+                and s_.value.args and norm(s_.value.args[0]) == iv:
+            rec.append(("list", s_, norm(s_.value.func.value), None))
+        if isinstance(s_, ast.Assign) and isinstance(s_.targets[0], ast.Subscript) and norm(s_.value) == iv and isinstance(s_.targets[0].value, ast.Name):
+            rec.append(("dict", s_, norm(s_.targets[0].value), s_.targets[0].slice))
+    if len(rec) != 1:
+        r1.expect(False, "selection store located", f, lp, "grid_from_kpoints: the single statement recording the selected index (`selected.append(i)` or `first[kint] = i`) was not found")
         return
-    a = app[0]
-    sel = norm(a.func.value)
-    g = enclosing(pm, a, ast.If)
+    kind, a, sel, keynode = rec[0]
+    conds = S.conditions(a, resolve=False)
+    GRID_OK = (f"np.array({gridp})", f"np.asarray({gridp})", gridp)
+
+    def grid_like(txt: str) -> bool:
+        e_ = ast.parse(txt, mode="eval").body
+        alts = {txt}
+        try:
+            alts |= {norm(x) for x in S.alternatives(e_, cfg.node(a))}
+        except Exception:
+            pass
+        return any(x in GRID_OK or any(x == f"np.array({y})" for y in ("tuple(", )) for x in alts) or any(x.startswith("np.array(") for x in alts)
+    # membership test on the integer mesh coordinate
+    seen, key = None, None
+    for t_, p_, _ in conds:
+        m_ = pmatch(ast.parse(t_, mode="eval").body, "KEY_ in SEEN_", {"KEY_", "SEEN_"})
+        if m_ and p_ is False and isinstance(m_[0][0], ast.Compare) and m_[0][0] is not None and t_ == f"{m_[0][1]['KEY_']} in {m_[0][1]['SEEN_']}":
+            key, seen = m_[0][1]["KEY_"], m_[0][1]["SEEN_"]
     ok = False
-    seen = None
-    if g is not None and isinstance(g.test, ast.Compare) and len(g.test.ops) == 1 and \
-            ((isinstance(g.test.ops[0], ast.NotIn) and in_body(g.body, a)) or (isinstance(g.test.ops[0], ast.In) and in_body(g.orelse, a))):
-        key, seen = norm(g.test.left), norm(g.test.comparators[0])
-        arm = g.body if isinstance(g.test.ops[0], ast.NotIn) else g.orelse
-        adds = [c for c in method_calls(ast.Module(body=arm, type_ignores=[]), "add") if norm(c.func.value) == seen and c.args and norm(c.args[0]) == key]
-        ok = bool(adds)
-        kd = du.single_def(key, cfg.node(g)) if key.isidentifier() else None
-        npg = None
+    if key is not None:
+        if kind == "list":
+            blk = next((b_ for b_ in (getattr(pm[a], "body", []), getattr(pm[a], "orelse", [])) if a in b_), [])
+            ok = any(isinstance(x, ast.Expr) and isinstance(x.value, ast.Call) and norm(x.value.func) == f"{seen}.add" and x.value.args and norm(x.value.args[0]) == key for x in blk)
+        else:
+            ok = seen == sel and norm(keynode) == key
+        kres = S.resolve(ast.parse(key, mode="eval").body, cfg.node(a))
         okk = False
-        if kd is not None and kd.value is not None:
-            m_ = pmatch(kd.value, f"tuple(np.round({kv} * G).astype(int))", {"G"}) or pmatch(kd.value, f"tuple(np.rint({kv} * G).astype(int))", {"G"}) \
-                or pmatch(kd.value, f"tuple(np.round({kv} * G).astype(int) % G)", {"G"})
-            if m_ and m_[0][0] is kd.value:
-                npg = m_[0][1]["G"]
-                gd = du.resolve_local(ast.Name(id=npg, ctx=ast.Load()), kd.node) if npg.isidentifier() else None
-                okk = gd is not None and norm(gd) in (f"np.array({gridp})", f"np.asarray({gridp})", gridp)
-        r1.check(okk, "the uniqueness key is the integer mesh coordinate round(k·grid)", f, kd.stmt if kd else g,
-                 f"uniqueness is tested on `{norm1(kd.value) if kd else key}`, not on the integer mesh coordinate round(k·grid) of the k-point")
+        KV = (kv, f"{kpp}[{iv}]")
+        for pat in [p_ for k_ in KV for p_ in (f"tuple(np.round({k_} * G_).astype(int))", f"tuple(np.rint({k_} * G_).astype(int))", f"tuple(np.round({k_} * G_).astype(int) % G_)")]:
+            m_ = pmatch(kres, pat, {"G_"})
+            if m_ and m_[0][0] is kres and (m_[0][1]["G_"] in GRID_OK or grid_like(m_[0][1]["G_"])):
+                okk = True
+        r1.check(okk, "the uniqueness key is the integer mesh coordinate round(k·grid)", f, a,
+                 f"uniqueness is tested on `{norm1(kres, 90)}`, not on the integer mesh coordinate round(k·grid) of the k-point")
         sd = [d for ds in du.defs_at.values() for d in ds if d.name == seen]
-        r1.check(len(sd) == 1 and sd[0].value is not None and norm(sd[0].value) == "set()" and cfg.dominates(sd[0].node, cfg.node(lp)) and enclosing(pm, sd[0].stmt, ast.For) is None,
-                 "the seen-set starts empty, once, before the loop", f, sd[0].stmt if sd else g, f"`{seen}` is re-initialised / not an empty set before the selection loop")
-    r1.check(ok, "test `kint not in seen`, seen.add(kint) and selected.append(i) form one guarded block", f, enclosing(pm, a, ast.stmt),
+        r1.check(len(sd) == 1 and sd[0].value is not None and norm(sd[0].value) in ("set()", "{}", "dict()") and cfg.dominates(sd[0].node, cfg.node(lp)) and enclosing(pm, sd[0].stmt, ast.For) is None,
+                 "the seen-container starts empty, once, before the loop", f, sd[0].stmt if sd else a, f"`{seen}` is re-initialised / not empty before the selection loop")
+    r1.check(ok, "test `kint not in seen`, recording kint and selecting i form one guarded block", f, a,
              "a k-point index is selected without the 'not seen before' test / without recording its mesh coordinate: a mesh point can be "
              "selected twice")
-    og = [x for x in ast.walk(lp) if isinstance(x, ast.If) and any(call_name(c) == "is_round" for c in ast.walk(x.test) if isinstance(c, ast.Call))]
-    okog = len(og) == 1 and in_body(og[0].body, a) and bool(pmatch(og[0].test, f"is_round({kv} * G, prec=ANY)", {"G"}) or pmatch(og[0].test, f"is_round({kv} * G)", {"G"}))
-    r1.check(okog, "only points lying on the mesh are candidates", f, og[0] if og else lp,
-             "points that are not on the requested mesh can be selected")
-    if okog:
-        pv = const_of(kwarg([c for c in ast.walk(og[0].test) if isinstance(c, ast.Call) and call_name(c) == "is_round"][0], "prec", 1), 1e-8)
-        r1.check(isinstance(pv, float) and 0 < pv < 0.5, f"on-mesh tolerance {pv} cannot merge neighbouring mesh points (< 1/2)", f, og[0],
-                 f"the on-mesh tolerance {pv} is so large that off-mesh points round onto mesh points")
+    # only points on the mesh are candidates
+    on_ok, tol = False, None
+    for t_, p_, _ in S.conditions(a, resolve=True):
+        if not p_:
+            continue
+        e_ = ast.parse(t_, mode="eval").body
+        for k_ in (kv, f"{kpp}[{iv}]"):
+            m1 = pmatch(e_, f"is_round({k_} * G_, prec=TOL_)", {"G_", "TOL_"})
+            m2 = pmatch(e_, f"np.linalg.norm({k_} * G_ - np.round({k_} * G_)) < TOL_", {"G_", "TOL_"})
+            for m_ in (m1, m2):
+                if m_ and m_[0][0] is e_:
+                    on_ok = True
+                    tol = const_of(ast.parse(m_[0][1]["TOL_"], mode="eval").body)
+            m3 = pmatch(e_, f"is_round({k_} * G_)", {"G_"})
+            if m3 and m3[0][0] is e_:
+                on_ok, tol = True, 1e-8
+    r1.check(on_ok, "only points lying on the mesh are candidates", f, a, "points that are not on the requested mesh can be selected")
+    if on_ok:
+        r1.check(isinstance(tol, float) and 0 < tol < 0.5, f"on-mesh tolerance {tol} cannot merge neighbouring mesh points (< 1/2)", f, a,
+                 f"the on-mesh tolerance {tol} is so large that off-mesh points round onto mesh points")
     rets = [s_ for s_ in stmts(f.node) if isinstance(s_, ast.Return)]
+    SEL_FORMS = (f"len({sel})", f"len(list({sel}.values()))", f"len({sel}.values())", f"len({sel}.keys())")
 
     def card_test(s_):
-        """'<' / '>' if s_ is `if |selected| < ∏grid: raise` / `> …: raise`, else None."""
-        if not (isinstance(s_, ast.If) and isinstance(s_.test, ast.Compare) and len(s_.test.ops) == 1 and isinstance(s_.body[-1], ast.Raise)):
+        if not (isinstance(s_, ast.If) and isinstance(s_.test, ast.Compare) and len(s_.test.ops) == 1 and s_.body and isinstance(s_.body[-1], ast.Raise)):
             return None
         at = cfg.node(s_)
-        l_, r_ = du.resolve_local(s_.test.left, at), du.resolve_local(s_.test.comparators[0], at)
 
-        def kind(e):
-            if norm(e) == f"len({sel})":
+        def kind_of(e):
+            r_ = S.resolve(e, at)
+            t_ = norm(r_)
+            if t_ in SEL_FORMS:
                 return "sel"
-            m2 = pmatch(e, "np.prod(G)", {"G"})
-            if m2 and m2[0][0] is e:
-                gsrc = du.resolve_local(ast.Name(id=m2[0][1]["G"], ctx=ast.Load()), at) if m2[0][1]["G"].isidentifier() else None
-                if gsrc is not None and norm(gsrc) in (f"np.array({gridp})", f"np.asarray({gridp})", gridp):
+            for pat in ("np.prod(G_)", "G_.prod()"):
+                m2 = pmatch(r_, pat, {"G_"})
+                if m2 and m2[0][0] is r_ and (m2[0][1]["G_"] in GRID_OK or grid_like(m2[0][1]["G_"])):
                     return "mesh"
             return None
-        kl, kr = kind(l_), kind(r_)
+        kl, kr = kind_of(s_.test.left), kind_of(s_.test.comparators[0])
         op = s_.test.ops[0]
         if (kl, kr) == ("sel", "mesh"):
             return "<" if isinstance(op, ast.Lt) else ">" if isinstance(op, ast.Gt) else "!=" if isinstance(op, ast.NotEq) else None
@@ -116,77 +148,135 @@ def run(ctx) -> None:
              "every return is dominated by `|selected| < ∏grid → raise` and `|selected| > ∏grid → raise`", f, rets[0] if rets else f.node,
              "a return of grid_from_kpoints is reachable without comparing the number of SELECTED points with the mesh size ∏grid in both directions: an "
              "incomplete (or over-complete) selection is accepted", stmt="cardinalities")
-    rv = [r_ for r_ in rets if r_.value is not None and sel in [norm(x) for x in ([r_.value] + (list(r_.value.elts) if isinstance(r_.value, ast.Tuple) else []))]]
-    r1.check(len(rv) >= 1 and all(r_ in rv or norm(r_.value) == gridp for r_ in rets),
-             "the selected indices are what is returned", f, rv[0] if rv else f.node, f"grid_from_kpoints does not return `{sel}`")
+    SEL_RET = (sel, f"list({sel}.values())", f"list({sel})")
+
+    def ret_ok(v) -> bool:
+        if v is None:
+            return False
+        if isinstance(v, ast.IfExp):
+            return ret_ok(v.body) and ret_ok(v.orelse)
+        t_ = norm(v)
+        if t_ == gridp or t_ in SEL_RET:
+            return True
+        return isinstance(v, ast.Tuple) and all(ret_ok(x) for x in v.elts)
+
+    def has_sel(v) -> bool:
+        return v is not None and any(norm(x) in SEL_RET for x in ast.walk(v) if isinstance(x, ast.expr))
+    r1.check(any(has_sel(r_.value) for r_ in rets) and all(ret_ok(r_.value) for r_ in rets),
+             "the selected indices are what is returned", f, rets[0] if rets else f.node, f"grid_from_kpoints does not return the selection `{sel}`")
     seld = [d for ds in du.defs_at.values() for d in ds if d.name == sel]
-    r1.check(len(seld) == 1 and norm(seld[0].value) in ("[]", "list()") and enclosing(pm, seld[0].stmt, ast.For) is None, "the selection starts empty, once", f,
+    r1.check(len(seld) == 1 and norm(seld[0].value) in ("[]", "list()", "{}", "dict()") and enclosing(pm, seld[0].stmt, ast.For) is None, "the selection starts empty, once", f,
              seld[0].stmt if seld else f.node, f"`{sel}` is rebound / not empty before the loop")
 
     r2 = ctx.rule("R23.2", "detected mesh is verified against every point")
     gm = idx.function(UT, "get_mp_grid")
     r2.instance(gm.short)
-    gcfg, gdu, gpm = fctx(gm)
     kp2 = gm.params[0]
-    mins = [c for c in ast.walk(gm.node) if isinstance(c, ast.Call) and call_name(c) == "min" and len(c.args) == 1]
-    if len(mins) != 1:
-        r2.expect(False, "smallest coordinate located", gm, gm.node, "get_mp_grid: `min(<fractions>)` not found")
+    GMS = Sem(idx, gm)
+    site = None
+    for h in [gm] + reachable_helpers(idx, gm):
+        for c_ in ast.walk(h.node):
+            if isinstance(c_, ast.Call) and call_name(c_) == "min" and len(c_.args) == 1:
+                site = (h, c_) if site is None else "many"
+    if site is None or site == "many":
+        r2.expect(False, "smallest coordinate located", gm, gm.node, "get_mp_grid: a single `min(<fractions>)` (in it or its private helpers) was not found")
         return
-    mn = mins[0]
-    at = gdu.node_of_expr(mn)
-    sl, _, defs = gdu.backward_slice(mn.args[0], at)
-    lim = [c for e in sl for c in ast.walk(e) if isinstance(c, ast.Call) and isinstance(c.func, ast.Attribute) and c.func.attr == "limit_denominator"]
-    r2.expect(len(lim) >= 1, "rational reconstruction located", gm, mn, "get_mp_grid: Fraction(k).limit_denominator(N) not found in the definition of the candidates")
+    h, mn = site
+    HS = Sem(idx, h)
+    HS.keep_names = {kp2}
+    GMS.keep_names = {kp2}
+    at = HS.du.node_of_expr(mn)
+    cand = HS.resolve(mn.args[0], at)
+    ctxt = norm(cand)
+    lim = [c_ for c_ in ast.walk(cand) if isinstance(c_, ast.Call) and isinstance(c_.func, ast.Attribute) and c_.func.attr == "limit_denominator"]
+    r2.expect(len(lim) >= 1, "rational reconstruction located", h, mn, "get_mp_grid: Fraction(k).limit_denominator(N) not found in the definition of the candidates")
     nmax = const_of(lim[0].args[0] if lim and lim[0].args else None, 1000000) if lim else None
-    # every threshold comparison on the way from the coordinates to the candidates must only remove exact zeros
-    bad = []
-    nz = 0
-    for e in sl:
-        for c in ast.walk(e):
-            if isinstance(c, ast.Compare) and len(c.ops) == 1 and isinstance(c.comparators[0], ast.Constant) and isinstance(c.comparators[0].value, (int, float)) \
-                    and not isinstance(c.comparators[0].value, bool):
-                v = c.comparators[0].value
-                if v == 0 and isinstance(c.ops[0], (ast.NotEq, ast.Gt)):
-                    nz += 1
-                elif isinstance(nmax, int) and 0 < abs(v) < 1.0 / nmax and isinstance(c.ops[0], (ast.Gt, ast.GtE)):
-                    nz += 1
-                else:
-                    bad.append(c)
-    r2.check(not bad and nz >= 1, f"only exact zeros are excluded before the smallest coordinate 1/N (N ≤ {nmax}) is taken", gm, gpm and enclosing(gpm, (bad or [mn])[0], ast.stmt),
+    bad, nz = [], 0
+    for c_ in ast.walk(cand):
+        if isinstance(c_, ast.Compare) and len(c_.ops) == 1 and isinstance(c_.comparators[0], ast.Constant) and isinstance(c_.comparators[0].value, (int, float)) \
+                and not isinstance(c_.comparators[0].value, bool):
+            v = c_.comparators[0].value
+            if v == 0 and isinstance(c_.ops[0], (ast.NotEq, ast.Gt)):
+                nz += 1
+            elif isinstance(nmax, int) and 0 < abs(v) < 1.0 / nmax and isinstance(c_.ops[0], (ast.Gt, ast.GtE)):
+                nz += 1
+            else:
+                bad.append(c_)
+        if isinstance(c_, ast.BinOp) and isinstance(c_.op, ast.Sub) and isinstance(c_.right, ast.Set) and [const_of(x) for x in c_.right.elts] == [0]:
+            nz += 1
+    r2.check(not bad and nz >= 1, f"only exact zeros are excluded before the smallest coordinate 1/N (N ≤ {nmax}) is taken", h, enclosing(HS.pm, mn, ast.stmt),
              f"`{norm1(bad[0]) if bad else 'no zero filter'}`: coordinates are discarded by a threshold that is not below 1/{nmax} (the largest mesh the rational "
              f"reconstruction supports): for meshes with 1/N under the threshold the smallest coordinate is lost and a coarser mesh is detected",
              stmt="kmin")
-    kmn = gpm.get(mn)
-    kst = enclosing(gpm, mn, ast.stmt)
+    kst = enclosing(HS.pm, mn, ast.stmt)
     kname = kst.targets[0].id if isinstance(kst, ast.Assign) and isinstance(kst.targets[0], ast.Name) and kst.value is mn else None
-    lpi = enclosing(gpm, mn, ast.For)
-    if kname is None or lpi is None or not isinstance(lpi.target, ast.Name):
-        r2.expect(False, "kmin assignment inside the direction loop", gm, kst, "get_mp_grid: `kmin = min(…)` inside `for i in range(3)` not recognised")
+    if kname is None:
+        r2.expect(False, "kmin assignment", h, kst, "get_mp_grid: `kmin = min(…)` not recognised")
         return
-    ii = lpi.target.id
-    cols = [n for e in sl for n in ast.walk(e) if isinstance(n, ast.Subscript) and norm(n.value) == kp2]
-    src = [n for n in cols if pmatch(n, f"{kp2}[:, {ii}]") and pmatch(n, f"{kp2}[:, {ii}]")[0][0] is n]
-    src = src if len(src) == len(cols) else []
-    r2.check(bool(src) and norm(lpi.iter) == "range(3)", "direction i uses column i of the k-points, i = 0, 1, 2", gm, lpi,
-             f"the candidates of direction {ii} are not taken from column {ii} of the k-points for the three directions")
-    G = Frag(gm)
-    stq = [s_ for s_ in ast.walk(lpi) if isinstance(s_, ast.Assign) and pmatch(s_, f"MG[{ii}] = {kname}.denominator", {"MG"})]
-    asn = [s_ for s_ in ast.walk(lpi) if isinstance(s_, ast.Assert) and norm(s_.test) in (f"{kname}.numerator == 1", f"1 == {kname}.numerator")]
-    r2.check(len(stq) == 1 and len(asn) == 1, "mesh size = denominator of the smallest non-zero coordinate (numerator 1 required)", gm, kst,
+    # which column feeds direction i
+    cols = [n for n in ast.walk(cand) if isinstance(n, ast.Subscript) and norm(n.value) in (kp2, f"{kp2}.T")]
+    dirv = None
+    okcol = bool(cols)
+    for n in cols:
+        sl = n.slice
+        if norm(n.value) == kp2 and isinstance(sl, ast.Tuple) and len(sl.elts) == 2 and isinstance(sl.elts[0], ast.Slice) and isinstance(sl.elts[1], ast.Name):
+            dirv = dirv or sl.elts[1].id
+            okcol = okcol and sl.elts[1].id == dirv
+        elif norm(n.value) == f"{kp2}.T" and isinstance(sl, ast.Name):
+            dirv = dirv or sl.id
+            okcol = okcol and sl.id == dirv
+        else:
+            okcol = False
+    # the direction loop: `for i in range(3)` / `for i, col in enumerate(kpoints.T)` / comprehension over range(3) around the helper call
+    dir_ok = False
+    if dirv is not None:
+        for fn_ in (h, gm):
+            for n in ast.walk(fn_.node):
+                if isinstance(n, ast.For) and ((isinstance(n.target, ast.Name) and n.target.id == dirv and norm(n.iter) == "range(3)") or
+                                               (isinstance(n.target, ast.Tuple) and norm(n.target.elts[0]) == dirv and norm(n.iter) == f"enumerate({kp2}.T)")):
+                    dir_ok = True
+                if isinstance(n, (ast.ListComp, ast.GeneratorExp)) and any(isinstance(g_.target, ast.Name) and g_.target.id == dirv and norm(g_.iter) == "range(3)" for g_ in n.generators):
+                    dir_ok = True
+    r2.check(okcol and dir_ok, "direction i uses column i of the k-points, i = 0, 1, 2", h, kst,
+             f"the candidates of direction {dirv} are not taken from column {dirv} of the k-points for the three directions")
+    asn = [s_ for s_ in ast.walk(h.node) if isinstance(s_, ast.Assert) and norm(s_.test) in (f"{kname}.numerator == 1", f"1 == {kname}.numerator")]
+    # the mesh size of direction i is kmin.denominator: stored into MG[i] (possibly through a temporary) or returned by the helper
+    HS.keep_names = HS.keep_names | {kname}
+    size_ok, mgn = False, None
+    for s_ in ast.walk(h.node):
+        if isinstance(s_, ast.Assign) and isinstance(s_.targets[0], ast.Subscript) and dirv is not None and norm(s_.targets[0].slice) == dirv:
+            alts = {norm(x) for x in HS.alternatives(s_.value, HS.cfg.node(s_))}
+            if f"{kname}.denominator" in alts and alts <= {f"{kname}.denominator", "1"}:
+                size_ok, mgn = True, norm(s_.targets[0].value)
+            elif norm(s_.value) == f"{kname}.denominator":
+                size_ok, mgn = True, norm(s_.targets[0].value)
+    if not size_ok and h is not gm:
+        hrets = [s_ for s_ in ast.walk(h.node) if isinstance(s_, ast.Return) and s_.value is not None]
+        if hrets and {norm(r_.value) for r_ in hrets} <= {f"{kname}.denominator", "1"} and any(norm(r_.value) == f"{kname}.denominator" for r_ in hrets):
+            for s_ in stmts(gm.node):
+                if isinstance(s_, ast.Assign) and isinstance(s_.targets[0], ast.Name) and any(isinstance(c_, ast.Call) and norm(c_.func).endswith(h.name) for c_ in ast.walk(s_.value)):
+                    size_ok, mgn = True, s_.targets[0].id
+    r2.check(size_ok and len(asn) == 1, "mesh size = denominator of the smallest non-zero coordinate (numerator 1 required)", h, kst,
              "get_mp_grid no longer sets the mesh size to the denominator of the smallest non-zero coordinate after asserting its numerator is 1", stmt="denominator")
-    mgn = pmatch(stq[0], f"MG[{ii}] = {kname}.denominator", {"MG"})[0][1]["MG"] if stq else None
-    asserts = [s_ for s_ in gm.node.body if isinstance(s_, ast.Assert) and any(call_name(c) in ("np.allclose", "np.all") for c in ast.walk(s_.test) if isinstance(c, ast.Call))]
+    gcfg, gdu, gpm = GMS.cfg, GMS.du, GMS.pm
+    asserts = [s_ for s_ in gm.node.body if isinstance(s_, ast.Assert)]
     rt = [s_ for s_ in stmts(gm.node) if isinstance(s_, ast.Return)]
     okv = False
-    if len(asserts) == 1 and mgn:
-        av = asserts[0]
-        sl2, _, _ = gdu.backward_slice(av.test, gcfg.node(av))
-        prod_ok = any(pmatch(e, f"{kp2} * {mgn}[None, :]") or pmatch(e, f"{kp2} * {mgn}") for e in sl2)
-        mod_ok = bool(pmatch(av.test, "np.allclose(np.round(X, ANY) % 1, 0)", {"X"}) or pmatch(av.test, "np.allclose(X, np.round(X))", {"X"}) or pmatch(av.test, "np.allclose(X % 1, 0)", {"X"}))
-        okv = prod_ok and mod_ok and all(gcfg.dominates(gcfg.node(av), gcfg.node(r_)) for r_ in rt) and bool(rt) and all(mgn in norm(r_.value) for r_ in rt)
-    r2.check(okv, "every k-point is asserted to lie on the detected mesh before the mesh is returned", gm, asserts[0] if asserts else gm.node,
+    av = None
+    if mgn:
+        GMS.keep_names = GMS.keep_names | {mgn}
+    for cand_a in asserts:
+        tres = GMS.resolve(cand_a.test, gcfg.node(cand_a))
+        for pat in ("np.allclose(np.round(X_, ANY) % 1, 0)", "np.allclose(X_.round(ANY) % 1, 0)", "np.allclose(X_, np.round(X_))", "np.allclose(X_ % 1, 0)"):
+            m_ = pmatch(tres, pat, {"X_"})
+            if m_ and m_[0][0] is tres and mgn:
+                x_ = m_[0][1]["X_"]
+                if any(q in x_ for q in (f"{kp2} * {mgn}[None, :]", f"{kp2} * {mgn}")) or any(q in GMS.rnorm(ast.parse(x_, mode="eval").body, gcfg.node(cand_a)) for q in (f" * {mgn}[None, :]", f" * {mgn}")):
+                    av = cand_a
+                    okv = all(gcfg.dominates(gcfg.node(av), gcfg.node(r_)) for r_ in rt) and bool(rt) and all(mgn in norm(r_.value) for r_ in rt)
+    r2.check(okv, "every k-point is asserted to lie on the detected mesh before the mesh is returned", gm, av or gm.node,
              "the detected mesh is returned without verifying that all k-points (k·mesh integer) lie on it")
-    red = gdu.reaching(kp2, gcfg.node(lpi))
+    red = gdu.reaching(kp2, gcfg.node(rt[0])) if rt else []
     okr = len(red) == 1 and red[0].value is not None and isinstance(red[0].value, ast.BinOp) and isinstance(red[0].value.op, ast.Mod) and const_of(red[0].value.right) == 1
     r2.check(okr, "coordinates are reduced to [0,1) first", gm, red[0].stmt if red and red[0].stmt is not None else gm.node, "coordinates are no longer reduced modulo 1 before the mesh is detected", stmt="mod 1")
 
